@@ -282,6 +282,10 @@ theorem stmtText_thO_conc (a b n v : List Char) (ha : Digits a) (hb : Digits b) 
 
 /-! ### non-vacuity: a three-statement document of three different kinds -/
 
+theorem parse_of_text_doc (env : Env) (g : G) (T : List Char) (s : String) (r : Option (List Tree))
+    (h : parseDoc env g (String.ofList T) = r) (e : T = s.toList) : parseDoc env g s = r := by
+  subst e; rwa [String.ofList_toList] at h
+
 /-- `INPUT(1) = w[1, 2]`, a blank line, `seesaw[5, {1, 2}, {3}]`, `reporter[3, 7]` -/
 example :
     parseDoc ssw_env ssw_grammar "INPUT(1) = w[1, 2]\n\nseesaw[5, {1, 2}, {3}]\nreporter[3, 7]\n" =
@@ -297,12 +301,13 @@ example :
       intro x hx
       simp only [List.mem_cons, List.not_mem_nil, or_false] at hx
       rcases hx with rfl | rfl | rfl
-      · exact stmtText_input ['1'] ['1'] ['2'] d1 d1 d2 0 1 1
+      · exact stmtText_input ['1'] ['1'] ['2'] d1 d1 d2 1 1 1
       · exact stmtText_seesaw ['5'] [['1'], ['2']] [['3']] d5
           ⟨by simp, by intro x hx; simp at hx; rcases hx with rfl | rfl <;> assumption⟩
           ⟨by simp, by intro x hx; simp at hx; subst hx; exact d3⟩
       · exact stmtText_reporter ['3'] ['7'] d3 d7 1)
-  exact h
+  -- the theorem's text IS the literal (checked on the character lists, not by evaluating the parser on both)
+  exact parse_of_text_doc _ _ _ _ _ h (by decide +kernel)
 
 /-- the same document, checked directly against the interpreter -/
 example :
